@@ -19,6 +19,7 @@ import (
 
 	erpc "github.com/henrylee2cn/erpc/v6"
 	"github.com/henrylee2cn/erpc/v6/codec"
+	pbmsg "github.com/henrylee2cn/erpc/v6/proto/pbproto/pb"
 
 	"verifharness/bed"
 	"verifharness/core"
@@ -142,10 +143,10 @@ type caseState struct {
 	viols []violation
 	nviol int64
 
-	callsOK, callsFailed, pushesSent, pushesOK, rawPushes, acceptAsked, bare int64
-	failSamples                                                              []string
-	pushSeen                                                                 sync.Map
-	pushRecv                                                                 int64
+	callsOK, callsFailed, pushesSent, pushesOK, rawPushes, acceptAsked, bare, emptyReplies int64
+	failSamples                                                                            []string
+	pushSeen                                                                               sync.Map
+	pushRecv                                                                               int64
 }
 
 func (cs *caseState) report(symptom, kind, detail string) {
@@ -239,6 +240,19 @@ func (cs *caseState) checkReply(kind, t string, cmd erpc.CallCmd, arg interface{
 		return
 	}
 	atomic.AddInt64(&cs.callsOK, 1)
+	if tok.EmptyReply(kind, t) {
+		// the handler answered with the empty value of the kind: that is what the caller has, whatever its receiver held before
+		atomic.AddInt64(&cs.emptyReplies, 1)
+		if !tok.IsEmpty(res) {
+			rt, _, _ := tok.Decode(res)
+			cs.report("caller-result-stale", kind, fmt.Sprintf("token %q: its handler returned the empty value, the caller's (reused) result still holds the result of token %q", t, rt))
+			return
+		}
+		if im := cmd.InputMeta(); im == nil || string(im.Peek("Rtok")) != t {
+			cs.report("caller-meta-foreign", kind, fmt.Sprintf("token %q: reply metadata of an empty reply does not name the token", t))
+		}
+		return
+	}
 	rt, rp, ok := tok.Decode(res)
 	if !ok || rt != t {
 		cs.report("caller-result-foreign", kind, fmt.Sprintf("call with token %q completed OK with the result of token %q", t, rt))
@@ -408,9 +422,17 @@ func runCase(id string, cfg Config, r *core.Rand) {
 		ctr := 0
 		// a long-lived receiver for []byte results, reused from call to call (it keeps the previous, possibly longer, result)
 		reused := new([]byte)
+		reusedS, reusedPB := new(string), new(pbmsg.Payload)
 		newResult := func(kind string) interface{} {
-			if kind == "bytes" && gr.Intn(2) == 0 {
-				return reused
+			if gr.Intn(2) == 0 {
+				switch kind {
+				case "bytes":
+					return reused
+				case "plain":
+					return reusedS
+				case "pb":
+					return reusedPB
+				}
 			}
 			return tok.NewResult(kind)
 		}
@@ -538,6 +560,7 @@ func runCase(id string, cfg Config, r *core.Rand) {
 	core.Add("raw_pushes_sent", cs.rawPushes)
 	core.Add("replies_in_an_accepted_codec_checked", cs.acceptAsked)
 	core.Add("ok_calls_without_any_metadata", cs.bare)
+	core.Add("ok_calls_answered_with_the_empty_value", cs.emptyReplies)
 	core.Add("pushes_received", atomic.LoadInt64(&cs.pushRecv))
 	core.Add("handler_invocations", mon.Handled)
 	core.Add("ctx_recycles_observed", mon.Recycles)
